@@ -75,11 +75,16 @@ def replay_scale(case):
         if case["center"] and not case["scale"]:
             forms.append("center(x)")
         forms.append(f"standardize(x, center={case['center']}, rescale={case['scale']}, ddof={case['ddof']})")
+        # the recorded state is keyed by the text of the stateful call, which is not the factor's text when the call sits inside a
+        # larger python expression or names a quoted column
+        forms.append(f"I(scale(x, center={case['center']}, scale={case['scale']}, ddof={case['ddof']}) + 0)")
+        forms.append(f"scale(`x v`, center={case['center']}, scale={case['scale']}, ddof={case['ddof']})")
+        df["x v"] = df["x"]
         for form in forms:
             mm = model_matrix("0 + " + form, df, context={})
             chk(f"model_matrix({form})", close(numpy.asarray(mm)[:, 0], exp_fit), numpy.asarray(mm)[:, 0].tolist(), exp_fit)
             for f in case["follow"]:
-                m2 = mm.model_spec.get_model_matrix(pandas.DataFrame({"x": [float(v) for v in f["y"]]}), context={})
+                m2 = mm.model_spec.get_model_matrix(pandas.DataFrame({"x": [float(v) for v in f["y"]], "x v": [float(v) for v in f["y"]]}), context={})
                 chk(f"spec reuse of {form}", close(numpy.asarray(m2)[:, 0], [val(p) for p in f["v"]]), numpy.asarray(m2)[:, 0].tolist())
     except Exception as e:  # noqa
         bad.append({**base, "why": "exception", "observed": type(e).__name__ + ": " + str(e)[:150]})
@@ -130,6 +135,13 @@ def replay_poly(case):
         for f in case["follow"]:
             m2 = mm.model_spec.get_model_matrix(pandas.DataFrame({"x": [float(v) for v in f["y"]]}), context={})
             chk("spec reuse of poly", close(numpy.asarray(m2), [[val(p) for p in row] for row in f["v"]]))
+        # a polynomial of a centred, quoted column: inner and outer state are both keyed by sanitised call texts
+        df["x v"] = df["x"]
+        mmq = model_matrix(f"0 + poly(center(`x v`), {k})", df, context={})
+        chk("model_matrix(poly(center(`x v`)))", close(numpy.asarray(mmq), exp_fit))
+        for f in case["follow"]:
+            m3 = mmq.model_spec.get_model_matrix(pandas.DataFrame({"x v": [float(v) for v in f["y"]]}), context={})
+            chk("spec reuse of poly(center(`x v`))", close(numpy.asarray(m3), [[val(p) for p in row] for row in f["v"]]), numpy.asarray(m3).tolist())
     except Exception as e:  # noqa
         bad.append({**base, "why": "exception", "observed": type(e).__name__ + ": " + str(e)[:150]})
     return bad, 6 + 3 * len(case["follow"])
@@ -193,6 +205,29 @@ def magnitudes(ctx: Ctx):
                 m2 = numpy.asarray(model_matrix("0 + scale(x)", pandas.DataFrame({"x": x}), context={}))[:, 0]
                 if abs(float(numpy.std(m2, ddof=1)) - 1) > tol and ddof == 1:
                     ctx.violation({"transform": "scale via model_matrix", "offset": off, "multiplier": mult}, {"why": "not unit standard deviation", "std": float(numpy.std(m2, ddof=1))}, kind="predicate")
+            if off == 0.0 and mult == 1.0:
+                # homogeneity (a theorem of MC_PolyScale): a power-of-two multiple is exact in floating point, so the standardised
+                # vector and the orthonormal polynomial columns must come out the same at every magnitude, on fit and on re-use
+                for e in (-70, -40, -30, -10, 20, 60):
+                    c = 2.0 ** e
+                    for ddof in (0, 1):
+                        ctx.traces += 1
+                        ctx.evaluations += 1
+                        st0, st1 = {}, {}
+                        ref, got = numpy.asarray(scale(x, ddof=ddof, _state=st0)), numpy.asarray(scale(c * x, ddof=ddof, _state=st1))
+                        ref2, got2 = numpy.asarray(scale(x[:5] + 1, _state=st0)), numpy.asarray(scale(c * (x[:5] + 1), _state=st1))
+                        if not (numpy.allclose(got, ref, rtol=1e-12, atol=1e-12) and numpy.allclose(got2, ref2, rtol=1e-12, atol=1e-12)):
+                            ctx.violation({"transform": "scale", "offset": 0.0, "multiplier": f"2**{e}", "ddof": ddof},
+                                          {"why": "standardising a power-of-two multiple differs from standardising the vector", "observed": got.tolist(), "expected": ref.tolist()},
+                                          kind="predicate")
+                    m1 = numpy.asarray(model_matrix("0 + scale(x) + center(x):scale(x, center=False)", pandas.DataFrame({"x": x}), context={}))
+                    mc = numpy.asarray(model_matrix("0 + scale(x) + center(x):scale(x, center=False)", pandas.DataFrame({"x": c * x}), context={}))
+                    if not numpy.allclose(mc[:, 0], m1[:, 0], rtol=1e-12, atol=1e-12) or not numpy.allclose(mc[:, 1], c * m1[:, 1], rtol=1e-12, atol=0):
+                        ctx.violation({"transform": "scale via model_matrix", "offset": 0.0, "multiplier": f"2**{e}"}, {"why": "homogeneity", "observed": mc.tolist()}, kind="predicate")
+                    Pc, P1 = numpy.asarray(poly(c * x, degree=3, _state={}), dtype=float), numpy.asarray(poly(x, degree=3, _state={}), dtype=float)
+                    if not numpy.allclose(Pc, P1, rtol=1e-9, atol=1e-12):
+                        ctx.violation({"transform": "poly", "offset": 0.0, "multiplier": f"2**{e}"}, {"why": "orthonormal polynomial of a power-of-two multiple differs", "observed": Pc.tolist()},
+                                      kind="predicate")
             if abs(off) <= 1e6:
                 P = numpy.asarray(poly(x, degree=3, _state={}), dtype=float)
                 ctx.traces += 1
